@@ -132,6 +132,7 @@ func runC14(c *Ctx) {
 		attemptSet[a] = true
 	}
 	r := &esp.Rule{Name: "C14", Flag: flag}
+	workspaceCell(r, 1) // a workspace kept in a field of an attempt record
 	r.Relevant = func(f *ssa.Function) bool { return relevant[f] }
 	r.Match = func(in ssa.Instruction) []esp.Ev {
 		id, ok := classify(in)
@@ -352,6 +353,94 @@ func runC14(c *Ctx) {
 				}
 			}
 			if hasCounter && hasBudget && exits {
+				budgetBlocks = append(budgetBlocks, b)
+			}
+		}
+		// the comparison may sit in a helper that returns the error which ends the submission (nil = try again):
+		// `if final := afterFailedAttempt(ctx, ec, failure, tries); final != nil { return final }`
+		for b := range L.Body {
+			iff, ok := b.Instrs[len(b.Instrs)-1].(*ssa.If)
+			if !ok {
+				continue
+			}
+			bo, ok := iff.Cond.(*ssa.BinOp)
+			if !ok || (bo.Op != token.NEQ && bo.Op != token.EQL) || !isNilK(bo.Y) {
+				continue
+			}
+			hc, ok := bo.X.(*ssa.Call)
+			if !ok {
+				continue
+			}
+			h := hc.Call.StaticCallee()
+			if h == nil || load.RelPkg(h) != "endorse" || h.Blocks == nil || errIndex(h.Signature) != 0 {
+				continue
+			}
+			// the non-nil side leaves the loop
+			nonNilSucc := b.Succs[0]
+			if bo.Op == token.EQL {
+				nonNilSucc = b.Succs[1]
+			}
+			if L.Body[nonNilSucc] {
+				continue
+			}
+			// which parameters of the helper get the counter
+			ctrParam := map[*ssa.Parameter]bool{}
+			for i, a := range hc.Call.Args {
+				if i >= len(h.Params) {
+					continue
+				}
+				lsl := flow.NewSlicer(c.P)
+				lsl.Visit(a, func(v ssa.Value) bool {
+					for _, k := range counters {
+						if v == k {
+							ctrParam[h.Params[i]] = true
+							return false
+						}
+					}
+					return true
+				}, nil)
+			}
+			// the helper compares such a parameter with the budget and returns a non-nil error on one side
+			found := false
+			for _, hb := range h.Blocks {
+				hif, ok := hb.Instrs[len(hb.Instrs)-1].(*ssa.If)
+				if !ok {
+					continue
+				}
+				hbo, ok := hif.Cond.(*ssa.BinOp)
+				if !ok {
+					continue
+				}
+				switch hbo.Op {
+				case token.LSS, token.LEQ, token.GTR, token.GEQ:
+				default:
+					continue
+				}
+				hasCounter, hasBudget := false, false
+				lsl := flow.NewSlicer(c.P)
+				lsl.Visit(hbo, func(v ssa.Value) bool {
+					if p, ok := v.(*ssa.Parameter); ok && ctrParam[p] {
+						hasCounter = true
+						return false
+					}
+					if retriesLoad(v) {
+						hasBudget = true
+					}
+					return true
+				}, nil)
+				endsWithErr := false
+				for _, sb := range hb.Succs {
+					if ret, ok := sb.Instrs[len(sb.Instrs)-1].(*ssa.Return); ok && len(ret.Results) == 1 {
+						if k, isK := ret.Results[0].(*ssa.Const); !isK || !k.IsNil() {
+							endsWithErr = true
+						}
+					}
+				}
+				if hasCounter && hasBudget && endsWithErr {
+					found = true
+				}
+			}
+			if found {
 				budgetBlocks = append(budgetBlocks, b)
 			}
 		}
